@@ -403,7 +403,7 @@ func ruleL7(p *Prog, r *Report) {
 						S := map[ssa.Instruction]bool{}
 						for k2, ws := range writes {
 							p2 := strings.SplitN(k2, "|", 3)
-							if p2[0] == parts[0] && p2[1] == owner && p2[2] == must {
+							if p2[0] == parts[0] && p2[1] == owner && (p2[2] == must || strings.HasPrefix(must, p2[2]+".")) {
 								for _, x := range ws {
 									S[x.in] = true
 								}
